@@ -22,9 +22,12 @@ Definition is_ws (c : ascii) : bool :=
 Definition is_ascii (c : ascii) : bool := (code c <? 128)%N.
 Definition is_digit (c : ascii) : bool := let n := code c in ((48 <=? n) && (n <=? 57))%N.
 
+(* List.rev is quadratic; the model uses the linear one (frev_rev : frev x = rev x) *)
+Definition frev {A} (x : list A) : list A := rev_append x [].
+
 Fixpoint trim_start (x : bytes) : bytes :=
   match x with c :: t => if is_ws c then trim_start t else x | [] => [] end.
-Definition trim_end (x : bytes) : bytes := rev (trim_start (rev x)).
+Definition trim_end (x : bytes) : bytes := frev (trim_start (frev x)).
 Definition trim (x : bytes) : bytes := trim_end (trim_start x).
 
 Definition to_lower (c : ascii) : ascii :=
@@ -53,8 +56,8 @@ Fixpoint contains_sub (p x : bytes) : bool :=
 (* str::split(char): always at least one piece *)
 Fixpoint split_on_aux (c : ascii) (cur : bytes) (x : bytes) : list bytes :=
   match x with
-  | [] => [rev cur]
-  | a :: t => if Ascii.eqb a c then rev cur :: split_on_aux c [] t else split_on_aux c (a :: cur) t
+  | [] => [frev cur]
+  | a :: t => if Ascii.eqb a c then frev cur :: split_on_aux c [] t else split_on_aux c (a :: cur) t
   end.
 Definition split_on (c : ascii) (x : bytes) : list bytes := split_on_aux c [] x.
 
